@@ -62,35 +62,57 @@ func idxHistCase(env *core.Env, idx int, prop string) *core.CaseResult {
 	if env.Thorough() {
 		p.Steps = 80 + r.Intn(150)
 	}
-	td := crashlab.TableDef{Name: "x", Via: "sql", Idx: []string{"skiplist", "skiplist", "skiplist"}}
+	// one table, or (every third case) two tables with independently drawn index kinds: a transaction then writes
+	// to both, and its abort has to roll back each table's own indexes
+	nT := 1
+	if idx%3 == 1 {
+		nT = 2
+	}
+	var tds []crashlab.TableDef
+	anyBtreeV, allNoV, anyHash := false, true, false
+	for t := 0; t < nT; t++ {
+		td := crashlab.TableDef{Name: []string{"x", "y"}[t], Via: "sql", Idx: []string{"skiplist", "skiplist", "skiplist"}}
+		if r.Intn(2) == 0 {
+			td.Via = "api"
+			td.Idx = []string{[]string{"skiplist", "uniq", "btree"}[r.Intn(3)], []string{"", "skiplist", "btree", "hash"}[r.Intn(4)], []string{"", "skiplist", "btree"}[r.Intn(3)]}
+		}
+		anyBtreeV = anyBtreeV || td.Idx[2] == "btree"
+		allNoV = allNoV && td.Idx[2] == ""
+		anyHash = anyHash || td.Idx[1] == "hash"
+		tds = append(tds, td)
+	}
 	p.MaxPayload = 800
 	p.RowSizes = [][]int{{8, 8, 60}, {8, 60, 300}, {60, 300, 800}}[r.Intn(3)]
-	if r.Intn(2) == 0 {
-		td.Via = "api"
-		td.Idx = []string{[]string{"skiplist", "uniq", "btree"}[r.Intn(3)], []string{"", "skiplist", "btree", "hash"}[r.Intn(4)], []string{"", "skiplist", "btree"}[r.Intn(3)]}
-		if td.Idx[2] == "btree" {
-			p.MaxPayload = 20
-			p.RowSizes = []int{8, 12, 20}
-		} else if td.Idx[2] == "" {
-			p.MaxPayload = 2500
-			p.RowSizes = []int{60, 300, 1200, 2500}
-		}
-		if td.Idx[1] == "hash" {
-			p.NoUpdate = true
-		}
+	if anyBtreeV {
+		p.MaxPayload = 20
+		p.RowSizes = []int{8, 12, 20}
+	} else if allNoV {
+		p.MaxPayload = 2500
+		p.RowSizes = []int{60, 300, 1200, 2500}
 	}
-	p.Tables = []crashlab.TableDef{td}
+	p.NoUpdate = anyHash
+	p.Tables = tds
 	p.File = prop == "C07" && idx%2 == 0
 	p.CleanShutdown = p.File && idx%4 == 0
-	kindTags := []string{"via-" + td.Via}
-	for i, k := range td.Idx {
-		if k != "" {
-			kindTags = append(kindTags, fmt.Sprintf("%s-on-%s", k, crashlab.Cols[i].Name))
+	kindSet := map[string]bool{}
+	for _, t := range tds {
+		kindSet["via-"+t.Via] = true
+		for i, k := range t.Idx {
+			if k != "" {
+				kindSet[fmt.Sprintf("%s-on-%s", k, crashlab.Cols[i].Name)] = true
+			}
 		}
+		res.Seen("index_configurations", strings.Join(t.Idx, "/")+" via "+t.Via)
+	}
+	var kindTags []string
+	for k := range kindSet {
+		kindTags = append(kindTags, k)
+	}
+	if nT > 1 {
+		kindTags = append(kindTags, "two-tables")
 	}
 	sort.Strings(kindTags)
-	res.Seen("index_configurations", strings.Join(td.Idx, "/")+" via "+td.Via)
-	var prev *idxSnap
+	prev := map[string]*idxSnap{}
 	nPoint := 0
 	desc := func(q *crashlab.Quiescent) map[string]any {
 		var w []string
@@ -104,9 +126,9 @@ func idxHistCase(env *core.Env, idx int, prop string) *core.CaseResult {
 			}
 			w = append(w, fmt.Sprintf("T%d(%s): %s", t.N, out, strings.Join(clipStmts(t.Stmts), " | ")))
 		}
-		return map[string]any{"seed": env.Seed, "idx": idx, "table": td, "memKB": p.MemKB, "window": w, "quiescent_point": nPoint}
+		return map[string]any{"seed": env.Seed, "idx": idx, "table": tds, "memKB": p.MemKB, "window": w, "quiescent_point": nPoint}
 	}
-	audit := func(db *sqlx.DB, model []rm.Row, maxID int32, where string, windowTags []string, d map[string]any, hadAbort, lone bool) (*idxSnap, bool) {
+	audit := func(db *sqlx.DB, td crashlab.TableDef, model []rm.Row, maxID int32, where string, windowTags []string, d map[string]any, hadAbort, lone bool) (*idxSnap, bool) {
 		extra := map[int][]rm.Cell{}
 		for id := int32(1); id <= maxID; id++ {
 			extra[0] = append(extra[0], rm.Int(id))
@@ -221,23 +243,38 @@ func idxHistCase(env *core.Env, idx int, prop string) *core.CaseResult {
 			}
 		}
 		d := desc(q)
-		snap, ok := audit(q.DB, q.Model[td.Name], q.MaxID, fmt.Sprintf("quiescent point %d", nPoint), wtags, d, hadAbort, lone)
-		if !ok {
-			return false
+		for _, td := range tds {
+			snap, ok := audit(q.DB, td, q.Model[td.Name], q.MaxID, fmt.Sprintf("quiescent point %d, table %s", nPoint, td.Name), wtags, d, hadAbort, lone)
+			if !ok {
+				return false
+			}
+			if prop == "C03" && lone && prev[td.Name] != nil {
+				res.Add("lone_abort_snapshots_compared", 1)
+				// exact pre-transaction state: same rows at the same row ids
+				a, b := snapCanon(prev[td.Name].heap), snapCanon(snap.heap)
+				if a != b {
+					res.Add("row_ids_changed_by_abort", 1) // values already equal the model; row ids are reported, not judged
+				}
+			}
+			prev[td.Name] = snap
 		}
-		if prop == "C03" && lone && prev != nil {
-			res.Add("lone_abort_snapshots_compared", 1)
-			// exact pre-transaction state: same rows at the same row ids
-			a, b := snapCanon(prev.heap), snapCanon(snap.heap)
-			if a != b {
-				res.Add("row_ids_changed_by_abort", 1) // values already equal the model; row ids are reported, not judged
+		if hadAbort && nT > 1 {
+			for _, t := range q.Ended {
+				if t.AbortRet >= 0 {
+					tabs := map[string]bool{}
+					for _, op := range t.Ops {
+						tabs[op.Table] = true
+					}
+					if len(tabs) > 1 {
+						res.Add("aborted_txns_spanning_two_tables", 1)
+					}
+				}
 			}
 		}
 		if (prop == "C03" && hadAbort && relocOrKey) || (prop == "C07" && hadAbort) {
 			res.Nontrivial = true
 			res.Add("nontrivial_points", 1)
 		}
-		prev = snap
 		return true
 	}
 	path := fmt.Sprintf("%s/ih_%d", env.TmpDir, idx)
@@ -249,7 +286,7 @@ func idxHistCase(env *core.Env, idx int, prop string) *core.CaseResult {
 	if fatal != "" {
 		tags := append([]string{"live-panic"}, kindTags...)
 		k := "panic-in-history"
-		res.Violate(k, tags, map[string]any{"seed": env.Seed, "idx": idx, "table": td, "statements": tailStr(h.StmtLog, 12)}, "the single-goroutine history panicked: %s", clipStr(fatal, 400))
+		res.Violate(k, tags, map[string]any{"seed": env.Seed, "idx": idx, "table": tds, "statements": tailStr(h.StmtLog, 12)}, "the single-goroutine history panicked: %s", clipStr(fatal, 400))
 	}
 	// restarts (C07, file-backed runs)
 	if prop == "C07" && p.File && fatal == "" && lastQ != nil && h.LiveDiff == "" && h.EndedEarly == "" {
@@ -259,23 +296,24 @@ func idxHistCase(env *core.Env, idx int, prop string) *core.CaseResult {
 		}
 		var db *sqlx.DB
 		rtags := []string{"restart", strings.ReplaceAll(kind, " ", "-")}
-		if td.Idx[1] == "hash" && !p.CleanShutdown {
+		if anyHash && !p.CleanShutdown {
 			rtags = append(rtags, "hash-index-crash-restart")
 		}
 		if msg, panicked := guarded(func() { db = sqlx.Open(path, p.MemKB, sqlx.Options{File: true}) }); panicked {
-			res.Violate("restart-panic", append(rtags, kindTags...), map[string]any{"seed": env.Seed, "idx": idx, "table": td}, "reopen after %s panicked: %s", kind, msg)
+			res.Violate("restart-panic", append(rtags, kindTags...), map[string]any{"seed": env.Seed, "idx": idx, "table": tds}, "reopen after %s panicked: %s", kind, msg)
 		} else {
-			final := finalModel(h, td.Name)
 			res.Add("restarts_audited", 1)
 			res.Add("restarts_"+strings.ReplaceAll(kind, " ", "_"), 1)
-			audit(db, final, lastQ.MaxID+1000, "after "+kind+" and reopen", rtags, map[string]any{"seed": env.Seed, "idx": idx, "table": td, "memKB": p.MemKB, "restart": kind, "statements": tailStr(h.StmtLog, 10)}, false, false)
+			for _, td := range tds {
+				audit(db, td, finalModel(h, td.Name), lastQ.MaxID+1000, "after "+kind+" and reopen, table "+td.Name, rtags, map[string]any{"seed": env.Seed, "idx": idx, "table": tds, "memKB": p.MemKB, "restart": kind, "statements": tailStr(h.StmtLog, 10)}, false, false)
+			}
 			guarded(func() { db.S.ShutdownForTescase() })
 		}
 	}
 	sqlx.RemoveFiles(path)
 	res.Key = fmt.Sprintf("%s-%d", prop, idx)
 	if idx < 2 {
-		res.Sample = map[string]any{"table": td, "memKB": p.MemKB, "statements": tailStr(h.StmtLog, 15)}
+		res.Sample = map[string]any{"table": tds, "memKB": p.MemKB, "statements": tailStr(h.StmtLog, 15)}
 	}
 	return res
 }
